@@ -177,8 +177,23 @@ pub fn interleaved_chain(d: usize) -> Shape {
     Shape { name: format!("interleaved macro/include chain of depth {}", d), files, expect: if d <= 32 { Expect::Tokens(toks) } else { Expect::Either(toks) } }
 }
 
+/// macro chain M0 -> M1 -> … -> Mk whose last macro includes the file itself: a cycle that passes through k macro levels
+/// per include level (the two depth counters must not multiply: 64 x 64 nested runs overflow the stack)
+pub fn macro_chain_self_include(k: usize) -> Shape {
+    let mut s = String::new();
+    for i in 0..k {
+        s.push_str(&format!("`define M{} `M{}\n", i, i + 1));
+    }
+    s.push_str(&format!("`define M{} `include \"top.sv\"\n", k));
+    s.push_str("`M0\n");
+    Shape { name: format!("macro chain of depth {} -> `include of the file itself", k), files: vec![("top.sv".into(), s)], expect: Expect::Limit { min_wrappers: 0 } }
+}
+
 fn shapes() -> Vec<Shape> {
     let mut v = Vec::new();
+    for k in [1usize, 3, 8, 20, 56] {
+        v.push(macro_chain_self_include(k));
+    }
     for n in 1..=8 {
         v.push(macro_cycle(n));
     }
